@@ -4,6 +4,7 @@
 //! or replays TLC-generated behaviours on the real objects.
 mod enc;
 mod gf256;
+mod obj;
 mod util;
 
 fn main() {
@@ -16,6 +17,8 @@ fn main() {
     match args[1].as_str() {
         "gf256" => gf256::run(&opts),
         "enc" => enc::run(&opts),
+        "objreplay" => obj::replay(&opts),
+        "objlog" => obj::log(&opts),
         other => {
             eprintln!("unknown command {other}");
             std::process::exit(2);
